@@ -145,6 +145,26 @@ def check_chunk(args):
                                   detail=f"big={big} files={case['files']} find_duplicates={sorted(map(sorted, got_sets), key=str)} "
                                          f"reference={sorted(map(sorted, want))}", case=case))
                 continue
+            sc = case.get("succ")
+            if sc:
+                with open(paths[sc["i"]], "r+b") as fh:     # in place: the same inode (and every hard link with it)
+                    fh.seek(0)
+                    fh.truncate()
+                    fh.write(big_body(sc["content"]) if big else BODY.get(sc["content"], f"int {sc['content']};\n".encode()))
+                os.utime(paths[sc["i"]], (1_600_000_000, 1_600_000_000))
+                stats["evals"] += 1
+                want2 = {frozenset(g) for g in sc["groups"]}
+                try:
+                    got2 = report.find_duplicates(CodeBase(root, root + "-legacy", exclude_patterns=["/excl/"]))
+                    got2_sets = {frozenset(inv.get(os.path.abspath(str(p)), str(p)) for p in g) for g in got2}
+                except Exception as e:  # noqa
+                    got2_sets = f"exception:{type(e).__name__}: {e}"
+                if got2_sets != want2:
+                    fails.append(dict(layer="G", tags=sorted(tg | {"history.rewrite"}), symptom="groups-differ-after-rewrite",
+                                      detail=f"big={big} files={case['files']}; file {sc['i']} rewritten in place with content "
+                                             f"{sc['content']!r}: second find_duplicates={got2_sets if isinstance(got2_sets, str) else sorted(map(sorted, got2_sets), key=str)} "
+                                             f"reference={sorted(map(sorted, want2))}", case=case))
+                    continue
             printed = {inv.get(os.path.abspath(x.strip())) for x in re.findall(r"^- (.*)$", text, re.M)}
             members = set().union(*want) if want else set()
             nomatch = "No duplicates found." in text
@@ -186,6 +206,29 @@ def run(ctx):
     cases += [j for j in big.json if isinstance(j, dict) and "groups" in j]
     if not cases:
         raise core.MachineryError("no code bases generated")
+    # history: ONE file of a code base is rewritten in place (same inode, same size class or not) and the report is
+    # asked again in the same process; the expectation is the reference's answer for the resulting code base, which is
+    # itself one of the enumerated ones
+    index = {json.dumps(c["files"], sort_keys=True): c for c in cases}
+    nsucc = 0
+    for c in cases:
+        fs = c["files"]
+        if len(fs) > 8:
+            continue
+        regs = [i for i, f in enumerate(fs) if f["kind"] == "reg" and f["content"]]
+        for i in regs:
+            for j in regs:
+                if "succ" in c or fs[j]["content"] == fs[i]["content"]:
+                    continue
+                nf = [dict(f) for f in fs]
+                for f in nf:
+                    if f is nf[i] or f["target"] == i + 1:
+                        f["content"] = fs[j]["content"]
+                succ = index.get(json.dumps(nf, sort_keys=True))
+                if succ is not None and succ["groups"] != c["groups"]:
+                    c["succ"] = {"i": i + 1, "content": fs[j]["content"], "groups": succ["groups"]}
+                    nsucc += 1
+    ctx.cov["rewrite_histories"] = nsucc
     ctx.cov["rule"] = (
         "every code base of N files whose contents come from a pool with an empty file, a one-line file, the same line "
         "plus a trailing newline (differs in length only) and the same line with one byte changed (and, a second time, with "
